@@ -7,6 +7,7 @@
    reader/extraction layer are covered by the correspondence run and the
    sanitizer oracle of this check, not yet by theorems. *)
 From Lhasa Require Import Base DecBase Generated InputStream Header BasicReader Reader P_HeaderSafe P_BitReader P_AnyDecoder P_ReaderSafe.
+From Lhasa Require P_Lh1.
 Local Open Scope N_scope.
 
 (* the only well-formedness needed: the lead-in buffer holds at most 24 bytes *)
@@ -56,20 +57,15 @@ Proof. exact P_HeaderSafe.archive_iteration_never_faults. Qed.
    entry, reads in any sizes, policy changes anywhere; any filesystem state and any
    explicit name for extract) no call reaches an invalid access: none of the sites
    1301-1314 (macbinary.c), 1401-1415 (lha_reader.c), 501 (lha_decoder.c) nor any
-   decoder site.  The -lh1- decoder enters through its invariant theorem, which is
-   an explicit premise here until P_Lh1.v is in the tree (every other decoder is
-   discharged: null, lz5, lzs, the six lh_new, pm1, pm2).  A call may run out of the
+   decoder site (all fourteen decoders discharged: null, lz5, lzs, lh1, the six lh_new,
+   pm1, pm2).  A call may run out of the
    model's fuel on endless input (OutOfFuel), it never faults. *)
 Theorem reader_history_never_faults :
-  forall lh1_inv : Lh1.lh1_state -> Prop,
-  (forall (cbs : Type) (cb : callback cbs), cb_len_bounded cb -> forall (s : Lh1.lh1_state) (c : cbs), lh1_inv s ->
-     exists ch s' c', Lh1.lh1_read cb s c = Ok (ch, s', c') /\ nlen ch <= lh1_max_read /\ lh1_inv s') ->
-  (exists s, Lh1.lh1_init = Ok s /\ lh1_inv s) ->
   forall mktime junk data k pol (l : list rop), rprotocol l = true ->
   forall site,
     run_ops mktime junk (lha_reader_set_dir_policy (lha_reader_new (lha_input_stream_new (mk_source k data))) pol) l
     <> Fault site.
-Proof. exact P_ReaderSafe.reader_history_never_faults_len. Qed.
+Proof. exact (P_ReaderSafe.reader_history_never_faults_len P_Lh1.lh1_inv_len P_Lh1.lh1_read_total_len P_Lh1.lh1_init_ok_len). Qed.
 
 (* the decoder input callback of the basic reader never returns more than asked, in
    every reader state (it is not byte-bounded in every state: a model stream may hold
